@@ -20,8 +20,10 @@ DEFAULTS = {0x09: [0], 0x0A: [0], 0x18: [0], 0x1A: [0], 0x39: [0], 0x42: [1], 0x
 
 
 class PropDevice:
-    def __init__(self, model, profile):
+    def __init__(self, model, profile, lose=()):
         self.m = model
+        self.lose = set(lose)   # indices (0 = first) of the property WRITES whose acknowledgement is lost on the way back
+        self.nsets = 0
         self.caps = PROFILES[profile]
         ids = [cid for cid, v in self.caps if cid in DEFAULTS]
         if any(cid == 0x43 for cid, _ in self.caps):
@@ -53,6 +55,10 @@ class PropDevice:
                 self.log.append(("get", [body[2 + 2 * i] | body[3 + 2 * i] << 8 for i in range(body[1])]))
             if ok:
                 out = [A.mk_frame(resp, check="sum")]
+            if body[0] == 0xB0:
+                if self.nsets in self.lose:
+                    out = []            # the appliance has carried out the write; its acknowledgement never arrives
+                self.nsets += 1
         self.exchanges.append([bytes(f) for f in out])
         return out
 
